@@ -19,10 +19,10 @@ import io
 
 TEXT_KINDS = ("str", "stringio", "textwrapper", "simtext")
 BYTE_KINDS = ("bytes", "bytesio", "simbytes_seek", "simbytes_noseek",
-              "simbytes_seekraises", "http_plain", "http_chunked")
+              "simbytes_seekraises", "http_plain", "http_chunked", "http_addinfourl")
 SIM_KINDS = ("simtext", "simbytes_seek", "simbytes_noseek", "simbytes_seekraises",
-             "http_plain", "http_chunked")
-NONSEEK_KINDS = ("simbytes_noseek", "simbytes_seekraises", "http_plain", "http_chunked")
+             "http_plain", "http_chunked", "http_addinfourl")
+NONSEEK_KINDS = ("simbytes_noseek", "simbytes_seekraises", "http_plain", "http_chunked", "http_addinfourl")
 
 
 class SimIOError(OSError):
@@ -283,4 +283,10 @@ def make_source(kind, payload, spec, log):
         return make_http_response(payload, spec, log, chunked=False)
     if kind == "http_chunked":
         return make_http_response(payload, spec, log, chunked=True)
+    if kind == "http_addinfourl":
+        # what urllib.request.urlopen returns for http(s): addinfourl wrapping
+        # the HTTPResponse (the second branch of HTMLInputStream's work-around)
+        import urllib.response
+        resp = make_http_response(payload, spec, log, chunked=False)
+        return urllib.response.addinfourl(resp, resp.headers, "http://sim.invalid/", 200)
     raise ValueError("unknown source kind %r" % (kind,))
